@@ -209,6 +209,11 @@ pub fn drive(corpus: &str, seed: u64, out: &str, thorough: bool) {
       }
     }
   }
+  // a match that spans several lines some of which are EMPTY (LF and CRLF ones): every printed line keeps its number
+  let gaps = "// top\nfoo(\n\n  [1,\r\n\r\n  2]\n\n);\nlast();\n\nfoo([\n\n]);\n// end\n".to_string();
+  for (j, (style, ctx)) in [("plain", (0, 0, false)), ("plain", (0, 1, false)), ("plain", (1, 1, true)), ("plain", (2, 3, false)), ("stream", (0, 1, false)), ("pretty", (1, 1, true))].into_iter().enumerate() {
+    cases.push(Case { id: format!("c16-gaps-{j}"), files: vec![("d0/g.js".to_string(), gaps.clone())], lang: "JavaScript", pattern: "foo($A)".into(), rewrite: None, ctx, style, scan: false, kind: None });
+  }
   // corpus files (CRLF c.* files; a.* for multi-byte text): pattern = an identifier-ish leaf is too language specific,
   // so use each language's most frequent named leaf text as a literal pattern
   for (l, path, text) in util::corpus(corpus) {
